@@ -24,3 +24,5 @@ pub assume_specification<T: Clone>[ <std::ops::Range<T> as Clone>::clone ](r: &s
 /// std::cmp::min (assumed std contract, stated over the type's specified total order).
 pub assume_specification<T: Ord>[ std::cmp::min::<T> ](a: T, b: T) -> (r: T)
     ensures T::obeys_cmp_spec() ==> r == (if a.cmp_spec(&b) == std::cmp::Ordering::Greater { b } else { a });
+pub assume_specification<T: Ord>[ std::cmp::max::<T> ](a: T, b: T) -> (r: T)
+    ensures T::obeys_cmp_spec() ==> r == (if b.cmp_spec(&a) == std::cmp::Ordering::Less { a } else { b });
